@@ -18,6 +18,7 @@ DECIDES = ('the input of split_curve / split_surface_u / split_surface_v / decom
 NOT_DECIDED = ('coincidence of the pieces with the original under the affine domain map, slice offsets ks + r of the control net inside split_curve / split_surface_* (decided by the syntactic split rules only): index-arithmetic facts of the split functions themselves.')
 TECHNIQUE = 'alias/mutation analysis with deep-mutation summaries, CFG dominance, axis tags'
 DECIDES += (' [ABSTRACT INTERPRETATION] DC2: decompose_curve / decompose_surface on recorder shapes with order-token knots (repeated interior knots included) and stub split functions split once at every distinct interior knot of a requested direction, in ascending order, never along another direction, never on the input itself, and return the Bezier pieces in (u-major) parameter order; DC9: the deep copy the splits start from shares nothing with the input; KI3 / OPS2: the insertion the splits rely on SP3: split_curve (and split_surface_u / _v on a non-square net with different degrees) on recorder shapes with exact rational knots and symbolic (homogeneous when rational) control points returns exactly the left and right halves of the net refined to full multiplicity, with the knot vectors [knots < u, u x (p+1)] / [u x (p+1), knots > u], leaves its input untouched and rejects the domain ends (DC1 only corroborates).')
+DECIDES += (' DC2 also requires that no piece is the input object; DC9 copies a non-square (2 x 4) surface net.')
 
 PURE_FUNCS = ['operations.split_curve', 'operations.split_surface_u', 'operations.split_surface_v', 'operations.decompose_curve',
               'operations.decompose_surface', 'operations.derivative_curve', 'operations.derivative_surface', 'operations.length_curve',
